@@ -174,7 +174,7 @@ def jsonable(v):
     if isinstance(v, (list, tuple, set)):         # frozenset is not in the documented JSON convertor table
         return all(jsonable(x) for x in v)
     if isinstance(v, dict):
-        return all(isinstance(k, str) and jsonable(x) for k, x in v.items())
+        return all((k is None or isinstance(k, (str, int, float, bool))) and jsonable(x) for k, x in v.items())       # json turns such keys into strings
     return False
 
 
